@@ -8,6 +8,7 @@ not from the type checker):
   * closure parameters are scoped to the closure body, closures see the enclosing bindings;
   * a `for` variable is scoped to the loop body (the iterated expression sees the enclosing scope);
   * a match payload is scoped to its arm (the scrutinee sees the enclosing scope);
+  * a `catch (e)` variable is scoped to the catch block; the `try` body is a block of its own;
   * function / method parameters and the method receiver are scoped to the function; a function body does not see top-level `let`s;
   * top-level `let`s (expression items) bind for the later top-level expression / block items;
   * a name that is not bound locally refers to the global function of that name, if any.
@@ -131,6 +132,13 @@ class Resolver:
                         self.bind(nm, path + (f"arm{j}.{i}",), s, "match-payload")
                 for i, st in enumerate(body):
                     self.expr(st, path + (1 + j, i), s)
+        elif k == "Try":
+            # the catch variable is scoped to the catch block; the try body is a block of its own
+            self.block(e[1], path + (0,), scope)
+            s = Scope(scope)
+            self.bind(e[2], path + ("catch",), s, "catch-variable")
+            for i, st in enumerate(e[3]):
+                self.expr(st, path + (1, i), s)
         elif k == "Let":
             self.expr(e[3], path + (0,), scope)
             self.dest(e[1], path, scope, "let")
